@@ -29,7 +29,12 @@ func init() {
 		NeedsCG:     true,
 		Rules: []core.Rule{
 			{ID: "C03-R1", Title: "controller return paths x endpoint guards: no install without the signature-valid branch", Decides: "verified only by a valid signature; any other outcome does not verify", Floor: 3, Run: c03r1},
-			{ID: "C03-R2", Title: "the signature is checked under the stored key of the named controller over this exchange's material", Decides: "valid signature with the stored long-term key over controller key, name, accessory key", Floor: 4, Run: func(c *core.Ctx) { c03r2(c); addedPairingKeepsItsKey(c); returnsUndecorated(c, "C03") }},
+			{ID: "C03-R2", Title: "the signature is checked under the stored key of the named controller over this exchange's material", Decides: "valid signature with the stored long-term key over controller key, name, accessory key", Floor: 4, Run: func(c *core.Ctx) {
+				c03r2(c)
+				addedPairingKeepsItsKey(c)
+				returnsUndecorated(c, "C03")
+				polarityEverywhere(c, "C03")
+			}},
 			{ID: "C03-R3", Title: "dispatch guards, reset on every finish exit, writers of the verify-session keys, session built from this controller's shared key", Decides: "out-of-order steps are rejected; keys come from this exchange", Floor: 7, Run: c03r3},
 			{ID: "C03-R4", Title: "an unverified connection stays in plaintext", Decides: "unverified connection stays unverified and in plaintext", Floor: 4, Run: c03r4},
 			{ID: "C03-R5", Title: "stateless wrappers, fresh per-connection verify state, lookups read storage, endpoint keeps no shared state", Decides: "replayed finish messages and removed pairings do not verify; verification is per connection", Floor: 6, Run: func(c *core.Ctx) {
